@@ -22,6 +22,7 @@ type SpecEnv struct {
 	li     *loopInfo // current loop (for idx)
 	topOld Term      // allocation watermark for fresh()
 	isOld  bool
+	ghosts map[string]string // ghost function name -> SMT function symbol of this application
 }
 
 func (env *SpecEnv) with(name string, v Val) *SpecEnv {
@@ -158,7 +159,13 @@ func (ex *Exec) evalSpec(e Expr, env *SpecEnv) Val {
 		if env.old == nil {
 			ex.specFail("old() is not available here: %s", e)
 		}
-		return ex.evalSpec(x.X, env.old)
+		o := env.old
+		if env.ghosts != nil && o.ghosts == nil {
+			oc := *o
+			oc.ghosts = env.ghosts
+			o = &oc
+		}
+		return ex.evalSpec(x.X, o)
 	case EUnary:
 		v := ex.evalSpec(x.X, env)
 		switch x.Op {
@@ -235,6 +242,9 @@ func (ex *Exec) specIdent(name string, env *SpecEnv) Val {
 			ex.specFail("local %s is not live at this point", name)
 		}
 	}
+	if name == "idx" && env.fr != nil && env.li != nil {
+		return Scalar{ex.loopIdx(env.fr, env.li, env.lst), types.Typ[types.Int]}
+	}
 	if obj := ex.prog.lookupObject("", name, env.pkg); obj != nil {
 		if v, ok := ex.objectVal(obj, env); ok {
 			return v
@@ -305,7 +315,7 @@ func (ex *Exec) specBinary(x EBinary, env *SpecEnv) Val {
 	case "==", "!=":
 		a, b = ex.coerceNil(a, b)
 		a, b = ex.coerceNum(a, b)
-		eq := ex.equalVals(a, b)
+		eq := ex.specEqual(a, b)
 		if x.Op == "!=" {
 			eq = Not(eq)
 		}
@@ -656,6 +666,13 @@ func (ex *Exec) specCall(x ECall, env *SpecEnv) Val {
 		need(1)
 		return Scalar{toReal(ex.scalar(argv(0))), types.Typ[types.Float64]}
 	}
+	if g, ok := env.ghosts[id.Name]; ok {
+		var args []Term
+		for i := range x.Args {
+			args = append(args, ex.scalar(argv(i)))
+		}
+		return Scalar{App(SInt, g, args...), intT}
+	}
 	sf := ex.prog.Contracts.Specs[id.Name]
 	if sf == nil {
 		ex.specFail("unknown specification function %s", id.Name)
@@ -706,7 +723,7 @@ func (ex *Exec) specCall(x ECall, env *SpecEnv) Val {
 		ex.specFail("specification function %s recurses too deeply (recursive specs must be uninterpreted)", sf.Name)
 	}
 	defer func() { ex.specDepth-- }()
-	inner := &SpecEnv{vars: map[string]Val{}, st: env.st, lst: env.lst, pkg: ctx, topOld: env.topOld, isOld: env.isOld}
+	inner := &SpecEnv{vars: map[string]Val{}, st: env.st, lst: env.lst, pkg: ctx, topOld: env.topOld, isOld: env.isOld, ghosts: env.ghosts}
 	if env.old != nil {
 		o := *env.old
 		o.vars = map[string]Val{}
@@ -781,4 +798,27 @@ func describeVal(v Val) string {
 		return "{" + strings.Join(fs, ", ") + "}"
 	}
 	return fmt.Sprintf("%T", v)
+}
+
+// specEqual is == in specifications. Strings that are not literals are compared
+// structurally (same bytes object, offset and length): stronger than Go's content
+// equality, used consistently on the proving and the assuming side.
+func (ex *Exec) specEqual(a, b Val) Term {
+	if x, ok := a.(StructV); ok {
+		y := b.(StructV)
+		var cs []Term
+		for i := range x.F {
+			cs = append(cs, ex.specEqual(x.F[i], y.F[i]))
+		}
+		return And(cs...)
+	}
+	ta, tb := ex.scalar(a), ex.scalar(b)
+	if ta.Sort == SStr {
+		isLitStr := func(t Term) bool { return strings.Contains(t.S, "str!") || t.S == emptyStr.S }
+		if isLitStr(ta) || isLitStr(tb) {
+			return ex.strEq(ta, tb)
+		}
+		return Eq(ta, tb)
+	}
+	return ex.equalVals(a, b)
 }
